@@ -481,6 +481,23 @@ CHECKS = {
         design_ref="DESIGN.md 5 C28, 10.9",
         note=NOTE_COMMON + " Numeric contracts are evaluated by numpy in complex128 and logged in parts per billion (tolerance 5e-5 single / 1e-7 double); alpha = 0 only with probes without small-modulus pixels; growth_* clauses (loop order, raster, window) are reported as model drift, never as violations.",
     ),
+    "C38": dict(
+        text=("Backend.tla: a session is a history of nested configuration contexts and pipeline runs in one process; every run must agree "
+              "with the pipeline's reference (numpy, float64, fresh planner) to 5e-5 under float32 and 1e-9 under float64, must not raise "
+              "under a supported configuration and must leave caller-owned arrays unmodified - whatever the backend, planning effort, "
+              "threads and whatever ran earlier in the session. BackendImpl.tla models what could break that in abtem/core/fft.py: the "
+              "in-place pyfftw transform behind the defensive copy, WISDOM_ONLY planning with the plan-on-a-dummy fallback, the "
+              "process-global wisdom that survives configuration contexts, the per-propagator cached plans, LIFO contexts; array contents "
+              "are symbolic terms and TLC checks in every reachable state of every session (length 6, nesting 3; named deviations "
+              "PlanOnData / NoCopy give counterexamples) that each run returns the pure transform and keeps its inputs. Conformance: every "
+              "full configuration (numpy; fftw x ESTIMATE/MEASURE/PATIENT (thorough: EXHAUSTIVE) x threads 1/2) x float32/float64 x 17 "
+              "concrete pipelines from a fresh planner, plus TLC-emitted sessions (one per distinct abstract state; stratified seeded "
+              "sample, 140 quick / 1500 thorough) replayed with the real abtem.config.set and the planner's wisdom kept inside the "
+              "session; BackendTrace.tla judges every run against the configuration the LIFO semantics puts in effect."),
+        technique="TLA+ session model of FFT dispatch, planner wisdom and configuration contexts checked by TLC; TLC-emitted sessions replayed on the real library; TLC trace validation of every run against the session machine",
+        design_ref="DESIGN.md 5 C38, 10.9",
+        note=NOTE_COMMON + " Metamorphic oracle (same code under numpy/float64): a change affecting every configuration alike is invisible here. mkl_fft and cupy are not installed. fftw.planning_timelimit is lowered for the replay. Known finding C38-prism-single-precision-core.",
+    ),
 }
 
 NOT_APPLICABLE = {
